@@ -76,6 +76,8 @@ let () =
        | "get" :: _ -> cur := OpGet :: !cur
        | "copy" :: t :: r :: l :: h :: _ ->
          cur := OpCopy (z_of_int (int_of_string t), z_of_int (int_of_string r), z_of_int (int_of_string l), unhex h) :: !cur
+       | "dup" :: t :: r :: ot :: orf :: _ ->
+         cur := OpDup (z_of_int (int_of_string t), z_of_int (int_of_string r), z_of_int (int_of_string ot), z_of_int (int_of_string orf)) :: !cur
        | "rw" :: t :: r :: l :: h :: _ ->
          cur := OpRewrite (z_of_int (int_of_string t), z_of_int (int_of_string r), z_of_int (int_of_string l), unhex h) :: !cur
        | "del" :: t :: r :: _ -> cur := OpDel (z_of_int (int_of_string t), z_of_int (int_of_string r)) :: !cur
